@@ -138,7 +138,9 @@ ClosedCh(st, e, i) ==
 (* Actions                                                                   *)
 
 Establish(e) ==
-  /\ est[e] = "new" /\ (e = "B" \/ est["B"] = "up")    \* the server is established first
+  /\ est[e] = "new"
+  /\ IF e = "B" THEN est["A"] = "new"      \* by the client's COOKIE-ECHO (a client that has ended sends none)
+                ELSE est["B"] = "up"       \* the server is established first (COOKIE-ACK)
   /\ est' = [est EXCEPT ![e] = "up"]
   /\ LET st == [St EXCEPT !.dcq = dcq] IN
        \* Flush reads est[e]; evaluate it against the new value by inlining the guard
@@ -278,6 +280,10 @@ Next ==
   \/ \E m \in bag : DeliverReconfig(m) \/ LoseReconfig(m)
 
 Spec == Init /\ [][Next]_vars
+\* for tlc -simulate (lock-step replay): associations end late, so that random behaviours
+\* exercise the lifecycle first
+SimNext == Next /\ (act'.op = "end" => (TLCGet("level") > 14 \/ RandomElement(1..8) = 1))
+SimSpec == Init /\ [][SimNext]_vars
 FairSpec == Spec /\ \A e \in E : WF_vars(Establish(e)) /\ WF_vars(DeliverData(e)) /\ WF_vars(FlushTask(e))
                  /\ WF_vars(\E m \in bag : DeliverReconfig(m))
 
